@@ -54,9 +54,11 @@ class Variant:
 
 
 def run_groups(chk, pid, groups, key_of, hang_in_scope=True, completion_required=None, with_recon=True,
-               collect_san=False, trace=False, per_result=None, confirm_baseline=True):
+               collect_san=False, trace=False, per_result=None, confirm_baseline=True, differs_key=None):
     """groups: list of (base_case, [Variant...]); the first variant is the reference.
     key_of(base_case, variant, kind) -> violation key.
+    differs_key(base_case, variant, n_differing, n_compared) -> key for an output difference (optional; lets a check
+    name how many of the group's variants differed, e.g. to keep a rare and a systematic difference apart).
     completion_required(variant) -> bool: whether a non-terminating run of this variant is a violation."""
     jobs = []
     for gi, (base, variants) in enumerate(groups):
@@ -151,6 +153,7 @@ def run_groups(chk, pid, groups, key_of, hang_in_scope=True, completion_required
             continue
         group_ok = True
         nvar = 0
+        diffs = []
         for (g, vi, case, v, res, sig, prefix, extra) in rs:
             chk.count()
             if collect_san:
@@ -186,12 +189,14 @@ def run_groups(chk, pid, groups, key_of, hang_in_scope=True, completion_required
                 for f in ("packets", "meta", "recon", "npackets", "nrecon"):
                     if sig.get(f) != ref_sig.get(f):
                         what.append(f)
-                chk.violation(key_of(base, v, "differs"),
-                              "variant '%s' output differs from reference '%s' in %s; %s"
+                diffs.append((v, "variant '%s' output differs from reference '%s' in %s; %s"
                               % (v.label, rs[0][3].label, what, first_packet_diff(rs[0][6], prefix)),
                               {"base": base, "reference": rs[0][3].label, "variant": v.label, "over": v.over,
-                               "sched": v.sched})
+                               "sched": v.sched}))
                 group_ok = False
+        for v, what, info in diffs:
+            key = differs_key(base, v, len(diffs), nvar) if differs_key else key_of(base, v, "differs")
+            chk.violation(key, what + " [%d of %d variants of this configuration differ]" % (len(diffs), nvar), info)
         if group_ok and ref_sig is not None and nvar:
             if ref_sig.get("npackets", 0) >= 2:
                 chk.nontrivial_case(core.sha(cfggen.case_ident(base)))
